@@ -20,6 +20,9 @@ def parseStep (j : Json) : Except String Step := do
   let s ← getStr j "s"
   match s with
   | "push" => pure .push
+  | "pushBegin" => pure .pushBegin
+  | "pushStore" => pure (.pushStore (← getInt j "id"))
+  | "flushTimeout" => pure .flushTimeout
   | "start" => pure (.start (← getInt j "id") ((← getOptInt j "w").getD 0).toNat)
   | "finish" => pure (.finish (← getInt j "id"))
   | "callback" => pure (.callback (← getInt j "id"))
